@@ -86,6 +86,9 @@ _BASE_CACHE_PARTS = dict(CACHE_PARTS)
 _TABLES_FOR = [None]     # the Index the derived entries of CACHE_PARTS / EXTRA_CACHE_READS belong to (kept alive)
 
 
+DERIVED_ATTRS = set()     # entries added to model.ATTR for lazily filled caches of the current tree
+
+
 def bind_tables(index):
     """CACHE_PARTS / EXTRA_CACHE_READS hold entries derived from one tree (unknown cached_property members): reset them
     when another Index is analysed in the same process, so that results never depend on what was analysed before."""
@@ -93,7 +96,15 @@ def bind_tables(index):
         CACHE_PARTS.clear()
         CACHE_PARTS.update(_BASE_CACHE_PARTS)
         EXTRA_CACHE_READS.clear()
+        from .model import ATTR as _ATTR
+        for a_ in list(DERIVED_ATTRS):
+            _ATTR.pop(a_, None)
+        DERIVED_ATTRS.clear()
         _TABLES_FOR[0] = index
+        try:
+            index._lazy_caches_done = False
+        except Exception:
+            pass
 # the degree (power of the scale factor) of each scale-covariant cache
 CACHE_POWER = {("_equations", "d"): 1, ("_simplex_equations", "d"): 1, ("_volume", ""): 3, ("_area", ""): 2,
                ("_centroid", ""): 1}
@@ -841,3 +852,69 @@ class PathConds(Component):
     def on_branch(self, interp, st, test_node, tv, truth):
         self.tests[id(test_node)] = (tv, test_node)
         st.comp[self.name] = st.comp[self.name] | {(id(test_node), truth)}
+
+
+class CopyCache(Component):
+    """COH-6: a copy of a shape (copy.copy / copy.deepcopy) carries the lazily filled caches of the original.  Writing state
+    such a cache is computed from on the copy, without resetting the cache, and then reading the cache (through any getter
+    of the copy) uses the value of the *original* geometry."""
+    name = "copycache"
+
+    def __init__(self):
+        self.violations = []      # (ev read, cache, written attr, ev write)
+
+    def init(self, interp):
+        return {}
+
+    def copy(self, v):
+        return dict(v)
+
+    def join(self, a, b):
+        out = {}
+        for k in set(a) | set(b):
+            x, y = a.get(k), b.get(k)
+            if x == y:
+                out[k] = x
+            elif x is None or y is None:
+                out[k] = x or y
+            else:
+                sx = x[0] if isinstance(x, tuple) else x
+                sy = y[0] if isinstance(y, tuple) else y
+                out[k] = x if sx == "stale" else (y if sy == "stale" else "inherited")
+        return out
+
+    def on_branch(self, interp, st, test_node, tv, truth):
+        x = tv.extra
+        neg = False
+        if x and x[0] == "not":
+            x, neg = x[1].extra, True
+        if not x or x[0] != "cmp":
+            return
+        node, left, rights = x[1], x[2], x[3]
+        if len(rights) == 1 and isinstance(node.ops[0], (ast.Is, ast.IsNot)) and rights[0].has_const() and rights[0].const is None:
+            none_when = isinstance(node.ops[0], ast.Is) != neg
+            state = st.comp[self.name]
+            for loc in left.al:
+                if loc in state and truth == none_when:
+                    state[loc] = "absent"
+
+    def on_event(self, interp, st, ev):
+        state = st.comp[self.name]
+        if ev.type == "copyobj":
+            for x in EXTRA_CACHE_READS:
+                state[(ev.new, x)] = "inherited"
+            return
+        if ev.type == "write":
+            oid, attr = ev.loc
+            if (oid, attr) in state:
+                rhs = ev.rhs
+                state[(oid, attr)] = "absent" if (ev.mode == "rebind" and rhs is not None and rhs.has_const() and rhs.const is None) else "fresh"
+                return
+            for (o, x), cur in list(state.items()):
+                if o == oid and attr in EXTRA_CACHE_READS.get(x, ()) and cur == "inherited":
+                    state[(o, x)] = ("stale", attr, ev)
+            return
+        if ev.type == "read":
+            cur = state.get(ev.loc)
+            if isinstance(cur, tuple) and cur[0] == "stale" and not _is_none_test_read(ev, ev.loc[1]):
+                self.violations.append((ev, ev.loc[1], cur[1], cur[2]))
